@@ -53,17 +53,21 @@ def run(chk):
         got_s, got_c = [f for _, f in r["tunw_s"]], [f for _, f in r["tunw_c"]]
         delivered += len(got_s) + len(got_c)
         sent_c, sent_s = [f for _, f in r["sent_c"]], [f for _, f in r["sent_s"]]
-        must_c = [f for f in sent_c if len(f) <= 700]
-        must_s = [f for f in sent_s if len(f) <= 700]
+        must_c = [f for _, f in r["accepted_c"] if len(f) <= 700]      # accepted by the sending side and well within 16 fragments
+        must_s = [f for _, f in r["accepted_s"] if len(f) <= 700]
         why = None
         if any(f not in sent_c for f in got_s) or any(f not in sent_s for f in got_c):
             why = "a packet arrived corrupted (not equal to any offered packet)"
         elif [f for f in got_s if f in must_c] != must_c or [f for f in got_c if f in must_s] != must_s:
             why = "packets offered after the handshake were not delivered (client->server %d of %d, server->client %d of %d)" % (
                 len([f for f in got_s if f in must_c]), len(must_c), len([f for f in got_c if f in must_s]), len(must_s))
+        key = "c11:survive"
+        if why and r["negotiated"].get("dn") == "R" and "punct=keep" not in r["relay"]:
+            # the downstream codec check string contains neither '+' nor '_': a relay that rewrites those bytes in TXT text passes the Raw test
+            key = "c11:raw-punct"
         if why:
             chk.violation("C11 fails on the implementation: the handshake settled on type %s, upstream %s, downstream %s, lazy %s through relay [%s] but %s"
-                          % (r["negotiated"].get("qt"), r["negotiated"].get("enc"), r["negotiated"].get("dn"), r["negotiated"].get("lazy"), r["relay"], why), r["log"], key="c11:survive")
+                          % (r["negotiated"].get("qt"), r["negotiated"].get("enc"), r["negotiated"].get("dn"), r["negotiated"].get("lazy"), r["relay"], why), r["log"], key=key)
             bad += 1
     chk.cov["evaluations"] = sum(len(r["log"]) for r in res)
     chk.cov["distinct_nontrivial"] = ok_hs
@@ -76,7 +80,7 @@ def run(chk):
     chk.notes["frames_delivered"] = delivered
     for r in res[:3]:
         chk.sample({"relay": r["relay"], "negotiated": r["negotiated"], "handshake": str(r["handshake"])})
-    if bad == 0 and not proof_ok:
+    if not chk.violations and not proof_ok:
         chk.violation("proof obligation no longer checks: " + chk.proof_detail,
                       ["# theorems of Props/C11.lean: " + ", ".join(vlib.prop_theorems("C11")), "# " + chk.proof_detail.replace("\n", "\n# ")], no_input=True)
 
